@@ -19,7 +19,8 @@ EXPLANATION = (
     'start-up and unregistration; (WMC.2) who may set which data flag, derived from the dispatch switch and '
     'the documented setters; (GRD.2/MPT.2) soft-hold typestate: soft_holds moves only on the empty<->non-empty '
     'transitions of the awaiting mask, and every query send is followed by marking the service awaited; '
-    '(GRD.3) hard-hold transition signatures; (MPT.3) a NO reply reaches the kill on all paths.  Counter '
+    '(GRD.4) the per-service reference count moves only by ++/--, every awaited mark takes a reference and '
+    'every clear gives one back, so a service owing a verdict is never freed; (GRD.3) hard-hold transition signatures; (MPT.3) a NO reply reaches the kill on all paths.  Counter '
     'values over histories are not decided.')
 ASSUMPTIONS = ['clang 14 CFG; uninterpreted boolean atoms; stores to an atom\'s operands reset it',
                'request records are zero-allocated (set_node_alloc -> xmalloc -> calloc)']
@@ -241,6 +242,7 @@ def run(P, R, tier):
     required_mask(P, R)
     flag_writers(P, R)
     holds.soft_hold_typestate(P, R, 'C02.GRD.2')
+    holds.refs_discipline(P, R, 'C02.GRD.4')
     query_awaited(P, R)
     holds.hard_hold_sites(P, R, 'C02.GRD.3')
     refusal_kills(P, R)
